@@ -363,6 +363,7 @@ def attrStep (e : BEnv) (cfg : ParserConfig) (m : XmlMeta) (nsmap : NsMap)
     if var.init then return (params.set var.name r.val, warns)
     else do validateFixed e.py var.toVarCore r.val; return (params, warns)
   | none =>
+    if qname = xsiType || qname = xsiNil then return (params, warns) else
     match m.findAnyAttributes qname with
     | some var =>
       let cur := match params.get var.name with
@@ -389,36 +390,39 @@ theorem params_single_set (n : Str) (x y : Val) : Params.set [(n, x)] n y = [(n,
 theorem attrStep_any (e : BEnv) (cfg : ParserConfig) (m : XmlMeta) (av : XmlVar) (nsmap : NsMap)
     (hm : m.attributes = []) (ha : m.anyAttributes = [av]) (hns : av.namespaces = [anyNs])
     (cur : List (QN × Str)) (w : Nat) (k : QN) (v : Str)
-    (hv : parseAnyAttribute v nsmap = v) (hk : cur.any (·.1 = k) = false) :
+    (hv : parseAnyAttribute v nsmap = v) (hk : cur.any (·.1 = k) = false)
+    (hctl : k ≠ xsiType ∧ k ≠ xsiNil) :
     attrStep e cfg m nsmap ([(av.name, .attrs cur)], w) (k, v)
       = .ok ([(av.name, .attrs (cur ++ [(k, v)]))], w) := by
   have h1 : m.findAttribute k = none := by simp [XmlMeta.findAttribute, hm]
   have h2 : m.findAnyAttributes k = some av := by
     simp [XmlMeta.findAnyAttributes, findByNamespace, ha, hns, matchNamespace, anyNs]
-  simp [attrStep, h1, h2, params_single_get, params_single_set, hv, hk, pure, Except.pure]
+  simp [attrStep, h1, h2, params_single_get, params_single_set, hv, hk, hctl.1, hctl.2, pure, Except.pure]
 
 theorem attrStep_first (e : BEnv) (cfg : ParserConfig) (m : XmlMeta) (av : XmlVar) (nsmap : NsMap)
     (hm : m.attributes = []) (ha : m.anyAttributes = [av]) (hns : av.namespaces = [anyNs])
-    (w : Nat) (k : QN) (v : Str) (hv : parseAnyAttribute v nsmap = v) :
+    (w : Nat) (k : QN) (v : Str) (hv : parseAnyAttribute v nsmap = v) (hctl : k ≠ xsiType ∧ k ≠ xsiNil) :
     attrStep e cfg m nsmap ([], w) (k, v) = .ok ([(av.name, .attrs [(k, v)])], w) := by
   have h1 : m.findAttribute k = none := by simp [XmlMeta.findAttribute, hm]
   have h2 : m.findAnyAttributes k = some av := by
     simp [XmlMeta.findAnyAttributes, findByNamespace, ha, hns, matchNamespace, anyNs]
-  simp [attrStep, h1, h2, params_get_nil, Params.set, Params.has, hv, pure, Except.pure]
+  simp [attrStep, h1, h2, params_get_nil, Params.set, Params.has, hv, hctl.1, hctl.2, pure, Except.pure]
 
 theorem attr_fold (e : BEnv) (cfg : ParserConfig) (m : XmlMeta) (av : XmlVar) (nsmap : NsMap)
     (hm : m.attributes = []) (ha : m.anyAttributes = [av]) (hns : av.namespaces = [anyNs]) (w : Nat) :
     ∀ (attrs cur : List (QN × Str)), keysDistinct attrs = true →
       (∀ kv ∈ attrs, parseAnyAttribute kv.2 nsmap = kv.2) →
+      (∀ kv ∈ attrs, kv.1 ≠ xsiType ∧ kv.1 ≠ xsiNil) →
       (∀ kv ∈ attrs, cur.any (·.1 = kv.1) = false) →
       attrs.foldlM (attrStep e cfg m nsmap) ([(av.name, .attrs cur)], w)
         = .ok ([(av.name, .attrs (cur ++ attrs))], w)
-  | [], cur, _, _, _ => by simp [pure, Except.pure]
-  | (k, v) :: r, cur, hd, hs, hc => by
+  | [], cur, _, _, _, _ => by simp [pure, Except.pure]
+  | (k, v) :: r, cur, hd, hs, hx, hc => by
     simp [keysDistinct] at hd
     have h1 := attrStep_any e cfg m av nsmap hm ha hns cur w k v (hs (k, v) (by simp)) (hc (k, v) (by simp))
+      (hx (k, v) (by simp))
     have ih := attr_fold e cfg m av nsmap hm ha hns w r (cur ++ [(k, v)]) hd.2
-      (fun kv h => hs kv (by simp [h]))
+      (fun kv h => hs kv (by simp [h])) (fun kv h => hx kv (by simp [h]))
       (fun kv h => by
         have h1 := hc kv (by simp [h])
         have h2 := hd.1 kv.1 kv.2 (by simpa using h)
@@ -430,14 +434,15 @@ theorem attr_fold (e : BEnv) (cfg : ParserConfig) (m : XmlMeta) (av : XmlVar) (n
 theorem bindAttrs_any (e : BEnv) (cfg : ParserConfig) (m : XmlMeta) (av : XmlVar) (nsmap : NsMap)
     (hm : m.attributes = []) (ha : m.anyAttributes = [av]) (hns : av.namespaces = [anyNs])
     (kv : QN × Str) (attrs : List (QN × Str)) (hd : keysDistinct (kv :: attrs) = true)
-    (hs : ∀ x ∈ kv :: attrs, parseAnyAttribute x.2 nsmap = x.2) :
+    (hs : ∀ x ∈ kv :: attrs, parseAnyAttribute x.2 nsmap = x.2)
+    (hx : ∀ x ∈ kv :: attrs, x.1 ≠ xsiType ∧ x.1 ≠ xsiNil) :
     bindAttrs e cfg m (kv :: attrs) nsmap = .ok ([(av.name, .attrs (kv :: attrs))], 0) := by
   obtain ⟨k, v⟩ := kv
   rw [bindAttrs_eq]
-  have h1 := attrStep_first e cfg m av nsmap hm ha hns 0 k v (hs (k, v) (by simp))
+  have h1 := attrStep_first e cfg m av nsmap hm ha hns 0 k v (hs (k, v) (by simp)) (hx (k, v) (by simp))
   simp [keysDistinct] at hd
   have h2 := attr_fold e cfg m av nsmap hm ha hns 0 attrs [(k, v)] hd.2
-    (fun x h => hs x (by simp [h]))
+    (fun x h => hs x (by simp [h])) (fun x h => hx x (by simp [h]))
     (fun x h => by
       have h2 := hd.1 x.1 x.2 (by simpa using h)
       simp
